@@ -20,6 +20,10 @@
 //!   `glwe_blind_rotation(_assign)` on a GLWE of a fixed small-coefficient plaintext → `ok <N decoded coefficients>`;
 //!   the GGSW variants on a GGSW of the scalar `i ↦ i` → `ok margin=<max over cells of log2(noise std) − bound>` w.r.t. the
 //!   scalar rotated by `want`.
+//! * `cbtexp be= rank= dnum= logdomain= lgo= data= [ext=]`: circuit bootstrapping in EXPONENT mode on its own small context (N=256,
+//!   n_lwe=77, radices 15/14/13/12/11 as in the crate's test): LWE of `data` (`logdomain + 1` bits), `execute_to_exponent(log_gap_out = lgo)`;
+//!   every row `i` (column 0) is decrypted and decoded at `min(res_base2k·(i+1), 30)` bits: `ok r0=<pos:val,…> r1=… noise=<max log2 std>`
+//!   (non-zero coefficients of each row; `noise` is the crate's GGSW noise statistic w.r.t. `X^{data << lgo}`, worst cell).
 //! * `cbt be= a=`: `FheUintPreparedDebug::prepare`, per-cell noise: `ok <max log2 std per (row,col)>…`.
 use std::io::{BufRead, Write};
 use std::sync::Mutex;
@@ -28,7 +32,11 @@ use poulpy_bin_fhe::bdd_arithmetic::{
     Add, And, Cswap, FheUint, GGSWBlindRotation, GLWEBlindRetrieval, GLWEBlindRetriever, GLWEBlindRotation, GLWEBlindSelection, FheUintPrepared, FheUintPreparedDebug, Identity, Or, Sll, Slt, Sltu, Sra, Srl, Sub, Xor,
     tests::test_suite::TestContext,
 };
-use poulpy_bin_fhe::blind_rotation::CGGI;
+use poulpy_bin_fhe::blind_rotation::{BlindRotationKeyLayout, CGGI};
+use poulpy_bin_fhe::circuit_bootstrapping::{
+    CircuitBootstrappingEncryptionInfos, CircuitBootstrappingKey, CircuitBootstrappingKeyEncryptSk, CircuitBootstrappingKeyLayout,
+    CircuitBootstrappingKeyPrepared,
+};
 use poulpy_core::{
     EncryptionLayout, GGSWEncryptSk, GLWEDecrypt, GLWEEncryptSk, LWEDecrypt,
     layouts::{
@@ -60,7 +68,54 @@ macro_rules! backend_impl {
             type BE = $be;
             pub type Tc = TestContext<CGGI, BE>;
 
+            pub struct CbCtx {
+                pub rank: usize,
+                pub dnum: usize,
+                pub module: poulpy_hal::layouts::Module<BE>,
+                pub sk_lwe: poulpy_core::layouts::LWESecret<Vec<u8>>,
+                pub sk_glwe: poulpy_core::layouts::prepared::GLWESecretPrepared<DeviceBuf<BE>, BE>,
+                pub key: CircuitBootstrappingKeyPrepared<DeviceBuf<BE>, CGGI, BE>,
+                pub ggsw_infos: GGSWLayout,
+                pub lwe_infos: LWELayout,
+            }
+
+            const CB_RES_B: usize = 15;
+            const CB_LWE_B: usize = 14;
+
+            fn cb_ctx(rank: usize, dnum: usize, scratch: &mut ScratchOwned<BE>) -> CbCtx {
+                use poulpy_core::layouts::{GGLWEToGGSWKeyLayout, GLWEAutomorphismKeyLayout, GLWESecret, GLWESecretPreparedFactory, LWESecret};
+                use poulpy_hal::api::ModuleNew;
+                let module = poulpy_hal::layouts::Module::<BE>::new(256u64);
+                let n_glwe = 256usize;
+                let (b_brk, b_tsk, b_atk) = (13usize, 12usize, 11usize);
+                let n_lwe = 77usize;
+                let k_ggsw = (dnum + 1) * CB_RES_B;
+                let infos = CircuitBootstrappingKeyLayout {
+                    brk_layout: BlindRotationKeyLayout { n_glwe: (n_glwe as u32).into(), n_lwe: (n_lwe as u32).into(), base2k: (b_brk as u32).into(), k: ((k_ggsw + b_brk) as u32).into(), dnum: 4u32.into(), rank: (rank as u32).into() },
+                    atk_layout: GLWEAutomorphismKeyLayout { n: (n_glwe as u32).into(), base2k: (b_atk as u32).into(), k: ((k_ggsw + b_tsk) as u32).into(), dnum: 4u32.into(), rank: (rank as u32).into(), dsize: Dsize(1) },
+                    tsk_layout: GGLWEToGGSWKeyLayout { n: (n_glwe as u32).into(), base2k: (b_tsk as u32).into(), k: ((k_ggsw + b_atk) as u32).into(), dnum: 4u32.into(), dsize: Dsize(1), rank: (rank as u32).into() },
+                };
+                let ggsw_infos = GGSWLayout { n: (n_glwe as u32).into(), base2k: (CB_RES_B as u32).into(), k: (k_ggsw as u32).into(), dnum: Dnum(dnum as u32), dsize: Dsize(1), rank: (rank as u32).into() };
+                let lwe_infos = LWELayout { n: (n_lwe as u32).into(), k: 22u32.into(), base2k: (CB_LWE_B as u32).into() };
+                let mut xs = Source::new([1u8; 32]);
+                let mut xa = Source::new([2u8; 32]);
+                let mut xe = Source::new([3u8; 32]);
+                let mut sk_lwe: LWESecret<Vec<u8>> = LWESecret::alloc((n_lwe as u32).into());
+                sk_lwe.fill_binary_block(7, &mut xs);
+                let mut sk: GLWESecret<Vec<u8>> = GLWESecret::alloc((n_glwe as u32).into(), (rank as u32).into());
+                sk.fill_ternary_prob(0.5, &mut xs);
+                let mut sk_glwe = module.glwe_secret_prepared_alloc((rank as u32).into());
+                module.glwe_secret_prepare(&mut sk_glwe, &sk);
+                let mut key: CircuitBootstrappingKey<Vec<u8>, CGGI> = CircuitBootstrappingKey::alloc_from_infos(&infos);
+                let enc = CircuitBootstrappingEncryptionInfos::from_default_sigma(&infos).unwrap();
+                module.circuit_bootstrapping_key_encrypt_sk(&mut key, &sk_lwe, &sk, &enc, &mut xe, &mut xa, scratch.borrow());
+                let mut prepared: CircuitBootstrappingKeyPrepared<DeviceBuf<BE>, CGGI, BE> = CircuitBootstrappingKeyPrepared::alloc_from_infos(&module, &infos);
+                prepared.prepare(&module, &key, scratch.borrow());
+                CbCtx { rank, dnum, module, sk_lwe, sk_glwe, key: prepared, ggsw_infos, lwe_infos }
+            }
+
             pub struct St {
+                pub cb: Option<CbCtx>,
                 pub tc: Tc,
                 pub xa: Source,
                 pub xe: Source,
@@ -68,7 +123,7 @@ macro_rules! backend_impl {
             }
 
             pub fn new_st() -> St {
-                St { tc: Tc::new(), xa: Source::new([42u8; 32]), xe: Source::new([43u8; 32]), scratch: ScratchOwned::alloc(1 << 24) }
+                St { cb: None, tc: Tc::new(), xa: Source::new([42u8; 32]), xe: Source::new([43u8; 32]), scratch: ScratchOwned::alloc(1 << 24) }
             }
 
             fn enc(st: &mut St, v: u32) -> FheUint<Vec<u8>, u32> {
@@ -349,6 +404,57 @@ macro_rules! backend_impl {
                             }
                             format!("ok margin={margin:.2}")
                         }
+                    }
+                    "cbtexp" => {
+                        use poulpy_core::{GGSWNoise, LWEEncryptSk};
+                        use poulpy_hal::api::VecZnxRotateAssign;
+                        let rank = kvn(t, "rank", 1) as usize;
+                        let dnum = kvn(t, "dnum", 3) as usize;
+                        let ld = kvn(t, "logdomain", 4) as usize;
+                        let lgo = kvn(t, "lgo", 1) as usize;
+                        let data = kvn(t, "data", 1) as i64;
+                        let ext = kvn(t, "ext", 1) as usize;
+                        if st.cb.as_ref().map(|c| c.rank != rank || c.dnum != dnum).unwrap_or(true) {
+                            st.cb = Some(cb_ctx(rank, dnum, &mut st.scratch));
+                        }
+                        let cx = st.cb.as_ref().unwrap();
+                        let module = &cx.module;
+                        let mut pt_lwe: LWEPlaintext<Vec<u8>> = LWEPlaintext::alloc((CB_LWE_B as u32).into(), (ld as u32).into());
+                        pt_lwe.encode_i64(data, ((ld + 1) as u32).into());
+                        let lwe_enc = EncryptionLayout::new_from_default_sigma(cx.lwe_infos).unwrap();
+                        let mut ct_lwe: LWE<Vec<u8>> = LWE::alloc_from_infos(&cx.lwe_infos);
+                        module.lwe_encrypt_sk(&mut ct_lwe, &pt_lwe, &cx.sk_lwe, &lwe_enc, &mut st.xe, &mut st.xa, st.scratch.borrow());
+                        let mut res: GGSW<Vec<u8>> = GGSW::alloc_from_infos(&cx.ggsw_infos);
+                        cx.key.execute_to_exponent(module, lgo, &mut res, &ct_lwe, ld, ext, st.scratch.borrow());
+                        let n = module.n();
+                        let mut rows = Vec::new();
+                        let glwe_infos = poulpy_core::layouts::GLWELayout { n: cx.ggsw_infos.n, base2k: cx.ggsw_infos.base2k, k: cx.ggsw_infos.k, rank: cx.ggsw_infos.rank };
+                        for i in 0..dnum {
+                            let mut pt: GLWEPlaintext<Vec<u8>> = GLWEPlaintext::alloc_from_infos(&glwe_infos);
+                            module.glwe_decrypt(&res.at(i, 0), &mut pt, &cx.sk_glwe, st.scratch.borrow());
+                            let mut out = vec![0i64; n];
+                            let prec = (CB_RES_B * (i + 1)).min(30);
+                            pt.decode_vec_i64(&mut out, TorusPrecision(prec as u32));
+                            let modulus: i64 = 1i64 << prec;
+                            let nz: Vec<String> = out.iter().enumerate().filter_map(|(p, &v)| {
+                                let mut w = v % modulus;
+                                if w > modulus / 2 { w -= modulus; }
+                                if w < -modulus / 2 { w += modulus; }
+                                if w != 0 { Some(format!("{p}:{w}")) } else { None }
+                            }).collect();
+                            rows.push(format!("r{i}={}", if nz.is_empty() { "-".to_string() } else { nz.join(",") }));
+                        }
+                        let mut pt_ggsw: ScalarZnx<Vec<u8>> = ScalarZnx::alloc(n, 1);
+                        pt_ggsw.at_mut(0, 0)[0] = 1;
+                        module.vec_znx_rotate_assign(data * (1i64 << lgo), &mut pt_ggsw.as_vec_znx_mut(), 0, st.scratch.borrow());
+                        let mut worst = f64::NEG_INFINITY;
+                        for row in 0..dnum {
+                            for col in 0..rank + 1 {
+                                let v = res.noise(module, row, col, &pt_ggsw, &cx.sk_glwe, st.scratch.borrow()).std().log2();
+                                if v > worst { worst = v; }
+                            }
+                        }
+                        format!("ok {} noise={worst:.2}", rows.join(" "))
                     }
                     "cbt" => {
                         let ca = enc(st, a);
